@@ -68,7 +68,7 @@ def run(tier, res, is_known):
         # full depth for the first two fee models, one level less for the others (the alphabet has grown since the
         # first build; the complete product at depth 5 no longer fits in an hour)
         plan = [(fee, i, 'USD', depth if k < 2 else depth - 1) for k, fee in enumerate(fees) for i in range(len(INITIALS))]
-        plan += [(FEES_QUICK[1], 2, 'GBP', depth), (FEES_QUICK[0], 1, 'EUR', depth)]
+        plan += [(FEES_QUICK[1], 2, 'GBP', depth - 1), (FEES_QUICK[0], 1, 'EUR', depth - 1)]
     for fee, i, base, dep in plan:
         for init in [INITIALS[i]]:
             spec = bm.BrokerSpec('C01', fee, [init], alphabet, df_check=True, base=base)
